@@ -24,8 +24,20 @@ use routinator::utils::json::json_str;
 use rpki::repository::tal::TalInfo;
 use rpki::rtr::Serial;
 use rpki::uri;
-use rv_harness::util::*;
+use rv_harness::util::{coq_bool, coq_list, drive, CaseOut, Rng};
 use serde_json::{json, Value};
+
+/// Coq list of bytes by name (Base/ByteNames.v: B00 .. Bff), much faster for coqc to read than numerals.
+fn coq_bytes(b: &[u8]) -> String {
+    let mut s = String::with_capacity(b.len() * 4 + 2);
+    s.push('[');
+    for (i, x) in b.iter().enumerate() {
+        if i > 0 { s.push(';') }
+        s.push_str(&format!("B{:02x}", x));
+    }
+    s.push(']');
+    s
+}
 
 //------------ logger (LogBookWriter only records when the global logger is enabled) ----
 
